@@ -390,7 +390,7 @@ _KERN = {}
 
 def pairwise_kernels(X, Y=None, metric="linear", **kw):
     """sklearn.metrics.pairwise_kernels by contract: 'precomputed' returns X; any other kernel is an uninterpreted
-    symmetric function k(x, y) in (0, 1] with k(x, x) = 1 (rbf-like) of the two feature rows"""
+    symmetric function k(x, y) in [0, 1] with k(x, x) = 1 (rbf-like; 0 = underflow for distant points) of the two feature rows"""
     X = asnd(X)
     if metric == "precomputed":
         return X
@@ -414,7 +414,9 @@ def pairwise_kernels(X, Y=None, metric="linear", **kw):
             if key not in c.uf_axioms_done:
                 c.uf_axioms_done.add(key)
                 same = _z3.And(*[p == q for p, q in zip(a, b)]) if a else _z3.BoolVal(True)
-                c.add(_z3.And(t > 0, t <= 1, t == f(gterm, *b, *a), _z3.Implies(same, t == 1)))
+                # (>= 0, not > 0: an rbf kernel underflows to exactly 0.0 for distant points)
+                lo = t > 0 if getattr(c, "kernel_strictly_positive", False) else t >= 0
+                c.add(_z3.And(lo, t <= 1, t == f(gterm, *b, *a), _z3.Implies(same, t == 1)))
                 # recorded for replays that want the solver's kernel values (a callable metric looking them up)
                 if not hasattr(c, "inputs"):
                     c.inputs = {}
